@@ -138,6 +138,7 @@ func biasAlphabet(level int) []M {
 			}
 		}
 	}
+	out = append(out, bias("criteriaOmission", M{"ratio": 0.67, "max": 1}), bias("preferenceReversal", M{"ratio": 1.0, "max": 1, "min": 1}))
 	for fi, f := range []M{{"function": "const", "params": M{"value": 0.25}, "randomSeed": 2}, {"function": "expFromZero", "params": M{"alpha": 0.5, "multiplier": 1.0, "queryNumber": 1}, "randomSeed": 3}} {
 		for b := 0; b < 3; b++ {
 			if level == 1 && (fi+b)%2 == 1 {
@@ -314,11 +315,12 @@ func joinComma(a []string) string {
 }
 
 // oddIdsRequest: identifiers that are valid but untidy — upper case (sorts before the generated "__..." ids), an id that
-// is a prefix of another, an id that itself starts with "__", ids with a space and non-ASCII letters; considered set
+// is a prefix of another, an id that itself starts with "__", ids with leading / trailing whitespace, a whitespace-only id and
+// non-ASCII letters; considered set
 // neither sorted nor an alphabetical prefix.
 func oddIdsRequest(method string) M {
-	return genericRequest(method, []string{"Quality", "c1", "c10", "__own"}, 1, []string{"α", "A b", "a", "ab"},
-		[][]float64{{1, 4, 2, 3}, {3, 1, 2.5, 1}, {2, 2, 0.5, 2}, {2.5, 3, 1, 0.5}}, []string{"a", "α", "A b"}, []float64{1, 2, 3, 1.5})
+	return genericRequest(method, []string{"Quality", "c1", "c10", "__own"}, 1, []string{"α", " a", "a", "ab ", " "},
+		[][]float64{{1, 4, 2, 3}, {3, 1, 2.5, 1}, {2, 2, 0.5, 2}, {2.5, 3, 1, 0.5}, {1.5, 2.5, 1.5, 1.5}}, []string{"a", "α", " a", "ab "}, []float64{1, 2, 3, 1.5})
 }
 
 // bigRequest: five criteria, six alternatives, four of them considered.
